@@ -163,7 +163,7 @@ def gen_lines(rng, cv, count, outside):
         out.append("e2frb %s" % hx(c03.scalar(rng, cv.n, kc)))
     for cs in pats:
         out.append("e2frb %s" % hx(fro(cs)))
-    for n_ in (1, 2, 4):
+    for n_ in (1, 2, 4, 11, 13):      # above ten points: the bucket branch
         toks = []
         for _ in range(n_):
             toks += [ptok(rng, cv, rng.choice(pool + [cv.g])), hx(rng.choice([fro(rng.choice(pats)), -fro(rng.choice(pats)), c03.scalar(rng, cv.n)]))]
